@@ -221,6 +221,19 @@ def renderer(run, m, F, E):
                         tl = I.as_u(s2, text[0][3]) if isinstance(text[0][3], IntV) else None
                         if tl is None or s2.is_eq0(tl - pl) is not True:
                             problems.append(('R13.4', 'emits %r bytes of the rendering, snprintf reported %r' % (tl, pl), 'emit'))
+                        # the bytes handed to the writer lie inside the buffer they were rendered into: snprintf reports the *untruncated*
+                        # length, which may exceed what a buffer sized in advance holds
+                        tp = text[0][2]
+                        to_ = s2.objs.get(tp.obj) if isinstance(tp, PtrV) and tp.obj is not None else None
+                        if to_ is not None and to_.size is not None and tl is not None:
+                            room = to_.size - tp.off - tl
+                            if s2.is_ge0(room) is not True:
+                                env = s2.find_model([room], lambda v: v[0] < 0)
+                                if env is not None:
+                                    problems.append(('R13.1', 'hands the writer %r bytes from a buffer that holds %r: the length snprintf reports is the '
+                                                     'untruncated one; witness %s' % (tl, to_.size - tp.off, own.fmt_env(env)), 'emit-bounds'))
+                                else:
+                                    und.append('the emitted range is not decided to lie inside the buffer it was rendered into')
                         need = s2.is_ge0(Lin.atom('minlen') - pl - 1)
                         if need is True:
                             if len(pads) != 1 or not isinstance(pads[0][3], IntV) or s2.is_eq0(I.as_u(s2, pads[0][3]) - (Lin.atom('minlen') - pl)) is not True:
